@@ -39,6 +39,47 @@ template <class G> struct C15 {
     const char* outn[7] = {"-1e-30", "-1", "1+ulp", "2", "+inf", "-inf", "nan"};
     std::vector<lat::XAtom> gl = lat::thin(lat::elements(g, cfg, lat::TINY, lat::PI - 1e-3L), 3, 2);
     R.product_size = (long)xa.size() * (long)xb.size();
+    // ---- nearly coincident end points (added after seed C15c: a "the end points coincide" shortcut keyed on |log(A^-1 B)|^2 < eps
+    // returned A for every t).  B = A exp(tau) with |tau| from 1e3*eps to 4*sqrt(eps); the judgement is relative to the distance:
+    // residual <= 64 ulp + B3 * |log(A^-1 B)|
+    {
+      const ref::Real sq = std::sqrt((ref::Real)cfg.eps);
+      const ref::Real mags[4] = {1e3L * cfg.eps, sq / 4, sq * 0.9L, sq * 4};
+      const char* magn[4] = {"1e3*eps", "sqrt_eps/4", "0.9*sqrt_eps", "4*sqrt_eps"};
+      const S ts[3] = {S(0.5), S(0.75), S(1)};
+      for (size_t i = 0; i < xa.size(); ++i) {
+        if (!R.mine()) continue;
+        G A = vf::make_elem<G>(xa[i].c);
+        ref::Mat Ma = vf::Mof(A);
+        for (int q = 0; q < 4; ++q) {
+          ref::Vec tau(g.DoF);
+          for (int k = 0; k < g.DoF; ++k) tau(k) = mags[q] * (0.4L + 0.15L * (k % 4)) * ((k % 2) ? -1 : 1);
+          G Bq = vf::make_elem<G>(g.fromM(Ma * g.exp(tau), xa[i].hemi));
+          ref::Mat Mb = vf::Mof(Bq);
+          bool ok = false;
+          ref::Vec rel = g.log(g.inv(Ma) * Mb, &ok);
+          if (!ok) { ++R.skipped; continue; }
+          ++R.states;
+          ref::Real lin = std::max(std::max(g.lin_scale_M(Ma), g.lin_scale_M(Mb)), (ref::Real)1);
+          ref::Real dist = g.difft(rel, ref::Vec::Zero(g.DoF), lin);
+          ref::Real tol = 64 * (ref::Real)std::numeric_limits<S>::epsilon() + B::B3 * dist;
+          std::string key = xa[i].key + "->A*exp(|tau|=" + magn[q] + ")";
+          if (!R.want(key)) continue;
+          std::string dd = "{" + vf::kv("A", vf::hexvec(A.coeffs())) + "," + vf::kv("B", vf::hexvec(Bq.coeffs())) + "," + vf::kv("distance", vf::jnum(dist));
+          for (int m = 0; m < 3; ++m) {
+            G m1 = manif::interpolate(A, Bq, S(1), ms[m]);
+            close(g.diffM(vf::Mof(m1), Mb, lin) / tol, 1, "close_pair_interpolate_at_1_is_B", key + "," + mn[m], dd + "," + vf::kv("got", vf::hexvec(m1.coeffs())) + "}");
+            G m0 = manif::interpolate(A, Bq, S(0), ms[m]);
+            close(g.diffM(vf::Mof(m0), Ma, lin) / tol, 1, "close_pair_interpolate_at_0_is_A", key + "," + mn[m], dd + "}");
+          }
+          for (int k = 0; k < 3; ++k) {
+            G mt = manif::interpolate(A, Bq, ts[k], manif::INTERP_METHOD::SLERP);
+            ref::Mat E = Ma * g.exp(ref::Vec((ref::Real)ts[k] * rel));
+            close(g.diffM(vf::Mof(mt), E, lin) / tol, 1, "close_pair_slerp_follows_the_geodesic", key + ",t=" + lat::fmt("%g", (double)ts[k]), dd + "," + vf::kv("got", vf::hexvec(mt.coeffs())) + "}");
+          }
+        }
+      }
+    }
     for (size_t i = 0; i < xa.size(); ++i)
       for (size_t j = 0; j < xb.size(); ++j) {
         if (!R.mine()) continue;
